@@ -1,4 +1,19 @@
 ---- MODULE MCConcurrent ----
-EXTENDS AkdConcurrent
+(* Bounded instances of AkdConcurrent; optionally exports every complete interleaving (the sequence *)
+(* of process ids, one entry per step) for replay through the harness's storage-operation gate.      *)
+EXTENDS AkdConcurrent, Json
+CONSTANT ExportSched
+VARIABLE sched
 KeysSeq == <<"root", "n1">>
+
+PStep(p) == PReadEpoch(p) \/ PReadVersions(p) \/ PBegin(p) \/ PRecheck(p) \/ PNode(p)
+            \/ PDrain(p) \/ PDbWrite(p) \/ PRootAfter(p) \/ PRet(p)
+RStep(r) == RReadEpoch(r) \/ RNode(r)
+
+MCInit == Init /\ sched = <<>>
+MCNext == \/ \E p \in Publishers : PStep(p) /\ sched' = Append(sched, p)
+          \/ \E r \in Readers : RStep(r) /\ sched' = Append(sched, r)
+          \/ RPoll /\ sched' = Append(sched, "poll")
+View == cvars
+ExportAtEnd == (ExportSched /\ Quiescent) => PrintT(<<"SCHED", ToJson(sched)>>)
 ====
